@@ -2,7 +2,7 @@
 # import_wt.sh <PROP> <k> <name> : import the k-th change a sub-agent left in /tmp/wt-<PROP>/out/<k>/ as seeded/<name>
 set -u
 P=$1; K=$2; NAME=$3
-D=/tmp/wt-$P/out/$K
+D=${SEED_WT_PREFIX:-/tmp/wt}-$P/out/$K
 S=$(python3 -c "import json,sys; print(json.load(open('$D/notes.json'))['summary'])")
 N=$(python3 -c "import json,sys; print(json.load(open('$D/notes.json'))['needs_to_manifest'])")
 mkdir -p /tmp/seedin/$NAME; cp $D/patch.diff $D/demo.diff /tmp/seedin/$NAME/
